@@ -17,8 +17,8 @@ EXPLANATION = ('(R20.1) no directory listing is reachable (call graph) from any 
                'abstract states of each entry point (callee peaks added at abstract write-side/read-side operations), is <= 2 '
                'without and <= 3 with a consistency checker; (R20.5) the crate contains no advisory-lock call and no exclusive-create '
                '(lock-file) open. Syscalls inside one std/filetime/tempfile primitive are trusted O(1).')
-FLOORS = {'R20.1': 12, 'R20.2': 6, 'R20.3': 8, 'R20.4': 20, 'R20.5': 1}
-FIXTURE_RULES = ['R20.3', 'R20.5']
+FLOORS = {'R20.1': 12, 'R20.2': 6, 'R20.3': 8, 'R20.4': 20, 'R20.5': 1, 'R20.6': 1}
+FIXTURE_RULES = ['R20.3', 'R20.5', 'R20.6']
 
 LOOKUPS = ['plain::Cache::get', 'plain::Cache::touch', 'sharded::Cache::get', 'sharded::Cache::touch']
 WRITES = ['plain::Cache::set', 'plain::Cache::put', 'sharded::Cache::set', 'sharded::Cache::put']
@@ -145,6 +145,66 @@ def r20_5(ctx):
                  'lock or lock-file primitive present: %s' % found[:3], path=found)]
 
 
+COLLECTIONS = ('std::vec::Vec', 'std::collections::VecDeque', 'std::collections::HashMap', 'std::collections::BTreeMap',
+               'std::collections::HashSet', 'std::collections::BTreeSet', 'std::collections::LinkedList', 'std::collections::BinaryHeap')
+
+
+def r20_6(ctx):
+    """"never more than two (three) files open at once": outside maintenance no function of a lookup / insert path keeps
+    a *collection* of descriptor-owning values (a `Vec<File>` filled in a loop holds as many descriptors as there are
+    caches in the stack, which no constant bounds).  Maintenance's candidate list is exempt: the property excludes it."""
+    m = ctx.cachedir_methods()
+    maint = set()
+    for k in m['maintain']:
+        maint |= ctx.cg.reach(k)
+    entries = [ctx.key_of(p) for p in LOOKUPS + WRITES] + [k for _n, k in stack_entries(ctx)] + \
+        [k for _n, k in public_methods_of(ctx, ctx.role('readonly_cache'), ('get', 'touch'))]
+    bodies = set()
+    for k in entries:
+        bodies |= ctx.cg.reach(k)
+    bodies -= maint
+    found = fd_collections_in(ctx, bodies)
+    return [inst('R20.6', 'no collection of open files outside maintenance', not found,
+                 'no function on a lookup/insert path (maintenance excluded; %d bodies) holds a collection of descriptor-owning values' % len(bodies) if not found else
+                 'a collection of open files/streams is built outside maintenance: %s' % found[:3], path=found)]
+
+
+def fd_collections_in(ctx, bodies):
+    from engine import Interp
+    from models import Models
+    I = Interp(ctx.facts, Models())
+
+    def fd_collection(tyid, depth=0):
+        t = ctx.T[tyid]
+        if depth > 4:
+            return None
+        if t['k'] == 'adt':
+            targs = [a for a in t.get('targs', []) if isinstance(a, int)]
+            if t.get('adt') in COLLECTIONS and any(I.fd_weight(a) > 0 for a in targs):
+                return t['s']
+            for a in targs:
+                r = fd_collection(a, depth + 1)
+                if r:
+                    return r
+        if t['k'] in ('ref', 'rawptr') and isinstance(t.get('to'), int):
+            return fd_collection(t['to'], depth + 1)
+        if t['k'] == 'tuple':
+            for a in t.get('elems', []):
+                r = fd_collection(a, depth + 1)
+                if r:
+                    return r
+        return None
+    found = []
+    for k in sorted(bodies):
+        b = ctx.B[k]
+        for l in b['locals']:
+            r = fd_collection(l['ty'])
+            if r:
+                found.append('%s: local of type %s' % (b['path'], r[:90]))
+                break
+    return found
+
+
 def peak(q):
     best = 0
     arg = None
@@ -233,8 +293,9 @@ def param_roots(q):
 
 def run(ctx):
     from runner import collect
-    return collect(ctx, r20_1, r20_2, r20_3, r20_4, r20_5)
+    return collect(ctx, r20_1, r20_2, r20_3, r20_4, r20_5, r20_6)
 
 
 def run_fixture(fctx):
-    return {'R20.3': sum(1 for i in r20_3(fctx) if not i['ok']), 'R20.5': sum(1 for i in r20_5(fctx) if not i['ok'])}
+    return {'R20.3': sum(1 for i in r20_3(fctx) if not i['ok']), 'R20.5': sum(1 for i in r20_5(fctx) if not i['ok']),
+            'R20.6': len(fd_collections_in(fctx, set(fctx.B)))}
